@@ -160,7 +160,7 @@ def _unit_worker(args):
                         ok = True
                         break
             if not ok and u.paths:
-                res["status"] = "vacuous"
+                res["_vacuous"] = True
         seen = set()
         nobl = 0
         for c in u.paths:
@@ -202,6 +202,9 @@ def _unit_worker(args):
                     except Exception:
                         pass
                 res["obligations"].append(rec)
+        if res.get("_vacuous") and all(o["verdict"] == "valid" for o in res["obligations"]):
+            res["status"] = "vacuous"       # every path condition unsatisfiable and nothing refuted: the proofs would be vacuous
+        res.pop("_vacuous", None)
         if nobl < unit.expect_min and unit.prove is not None:
             res["status"] = "too-few-obligations(%d<%d)" % (nobl, unit.expect_min)
     except ContractUnbound as e:
